@@ -58,6 +58,15 @@ func NewZSetMember(score float64, data string) *ZSetMember {
 func (zset *ZSet) Add(nms []*ZSetMember, opt ZAddOption) int {
 	addedMemberCount := 0
 	for _, nm := range nms {
+		// A member occurs only once: an existing member gets the new score
+		// and is not counted as added.
+		for n, tm := range zset.members {
+			if tm.Member == nm.Member {
+				zset.members = append(zset.members[:n], zset.members[n+1:]...)
+				addedMemberCount--
+				break
+			}
+		}
 		isAdded := false
 		for n, tm := range zset.members {
 			if nm.Score < tm.Score {
